@@ -105,6 +105,38 @@ def real_spec(rates, sizes=((3, 3),), models=None):
         'error_rate': list(rates)}}
 
 
+def typed_spec(spec, mode):
+    """The same specification with its numbers held as another numeric type
+    (what a script that builds sizes with np.arange / rates with np.linspace,
+    or writes 0 instead of 0.0, hands to read_input_dict)."""
+    import copy
+    if not mode:
+        return spec
+    sp = copy.deepcopy(spec)
+    rg = sp['ranges']
+
+    def conv(v):
+        if isinstance(v, bool) or not isinstance(v, (int, float)):
+            return v
+        if mode == 'numpy':
+            return np.int64(v) if isinstance(v, int) else np.float64(v)
+        if mode == 'float':
+            return float(v)
+        if mode == 'int':
+            return int(v) if float(v).is_integer() else v
+        return v
+    for prm in rg['code']['parameters']:
+        for k in list(prm):
+            if mode != 'float':          # lattice sizes stay integral
+                prm[k] = conv(prm[k])
+    for prm in rg['error_model']['parameters']:
+        for k in list(prm):
+            prm[k] = conv(prm[k])
+    if mode == 'numpy':
+        rg['error_rate'] = list(np.array(rg['error_rate'], dtype=float))
+    return sp
+
+
 class SaveSnapshots:
     """Wraps save_json where BatchSimulation looks it up; after every
     COMPLETED save the file is copied to <dir>/<k> (the last completed
@@ -348,7 +380,7 @@ class Stop(BaseException):
 
 def run_round(spec, out_file, target, save_frequency, incarnation,
               snap_dir=None, stop_after_trials=None, stop_kind='kill',
-              torn=None, line_failpoint=None):
+              torn=None, line_failpoint=None, spec_types=None):
     """Build a fresh BatchSimulation from the spec on out_file and run it to
     `target` trials.  Returns dict(status, saves, events...)."""
     import contextlib
@@ -373,7 +405,8 @@ def run_round(spec, out_file, target, save_frequency, incarnation,
     fp = None
     try:
         with contextlib.redirect_stdout(io.StringIO()):
-            batch = read_input_dict(spec, out_file, verbose=False,
+            batch = read_input_dict(typed_spec(spec, spec_types), out_file,
+                                    verbose=False,
                                     save_frequency=save_frequency)
             if line_failpoint is not None:
                 fp = LineFailpoint(line_failpoint)
